@@ -88,6 +88,8 @@ def coerceTo (t : Ty) (v : Val) : R Val :=
   | .variable => (match v with | .any c => .ok (.any c) | _ => .ok (.any (some (tyOfVal v, v))))
   | _ => if isNumTy t && isNumVal v then numCast t v else .ok v
 
+def liftR {α} (r : R α) : Outcome := match r with | .ok _ => .normal | .fehler => .fehler | .stuck w => .stuck w | .undef w => .undef w
+
 structure Ctx where
   structs : List StructDecl
   funcs : List Func
@@ -95,7 +97,7 @@ structure Ctx where
 mutual
 
 /-- evaluation of an expression: `(state, result)` -/
-partial def evalExpr (ctx : Ctx) (fuel : Nat) (env : Env) (st : State) (e : Expr) : State × R Val :=
+def evalExpr (ctx : Ctx) (fuel : Nat) (env : Env) (st : State) (e : Expr) : State × R Val :=
   match fuel with
   | 0 => (st, .stuck "out-of-fuel")
   | fuel + 1 =>
@@ -210,23 +212,14 @@ partial def evalExpr (ctx : Ctx) (fuel : Nat) (env : Env) (st : State) (e : Expr
      | .ok (.any none) => (st, .ok (.bool false))
      | .ok _ => (st, .stuck "typecheck")
      | r => (st, r))
-  | .listLit t es =>
-    let rec go (st : State) (es : List Expr) (acc : List Val) : State × R Val :=
-      match es with
-      | [] => (st, .ok (.list t acc.reverse))
-      | x :: xs =>
-        let (st, r) := evalExpr ctx fuel env st x
-        match r with
-        | .ok v => go st xs (v :: acc)
-        | r => (st, r)
-    go st es []
+  | .listLit t es => evalList ctx fuel env st t es []
   | .listRep t cnt v =>
     let (st, rc) := evalExpr ctx fuel env st cnt
     (match rc with
      | .ok c =>
        let (st, rv) := evalExpr ctx fuel env st v
        (match rv, c.toInt? with
-        | .ok x, some n => (st, .ok (.list t (List.replicate (if n > 0 then n.toNat else 0) x)))
+        | .ok x, some n => if n < 0 then (st, .undef "negative list count") else (st, .ok (.list t (List.replicate n.toNat x)))
         | .ok _, none => (st, .stuck "Mal")
         | r, _ => (st, r))
      | r => (st, r))
@@ -239,42 +232,13 @@ partial def evalExpr (ctx : Ctx) (fuel : Nat) (env : Env) (st : State) (e : Expr
   | .structLit name args =>
     match ctx.structs.find? (·.name == name) with
     | none => (st, .stuck "struct")
-    | some sd =>
-      let rec goF (st : State) (fs : List (String × Ty × Expr)) (acc : List (String × Val)) : State × R Val :=
-        match fs with
-        | [] => (st, .ok (.struct name acc.reverse))
-        | (fname, fty, dflt) :: rest =>
-          let src := match args.find? (·.1 == fname) with | some (_, x) => x | none => dflt
-          let (st, r) := evalExpr ctx fuel env st src
-          match r with
-          | .ok v => (match coerceTo fty v with | .ok v' => goF st rest ((fname, v') :: acc) | .fehler => (st, .fehler) | .stuck w => (st, .stuck w) | .undef w => (st, .undef w))
-          | r => (st, r)
-      goF st sd.fields []
+    | some sd => evalFields ctx fuel env st name args sd.fields []
   | .call f args =>
     match ctx.funcs.find? (·.name == f) with
     | none => (st, .stuck ("unknown function " ++ f))
     | some fd =>
       -- arguments are evaluated in source order of the call; value parameters are copied
-      let rec bindArgs (st : State) (as : List (String × Expr)) (sc : Scope) : State × R Scope :=
-        match as with
-        | [] => (st, .ok sc)
-        | (pn, ae) :: rest =>
-          match fd.params.find? (·.name == pn) with
-          | none => (st, .stuck "param")
-          | some p =>
-            if p.isRef then
-              let (st, rb) := evalLVal ctx fuel env st ae
-              match rb with
-              | .ok b => bindArgs st rest ((pn, b) :: sc)
-              | .fehler => (st, .fehler) | .stuck w => (st, .stuck w) | .undef w => (st, .undef w)
-            else
-              let (st, r) := evalExpr ctx fuel env st ae
-              match r with
-              | .ok v =>
-                let (st, loc) := st.alloc v
-                bindArgs st rest ((pn, ⟨loc, [], p.ty⟩) :: sc)
-              | .fehler => (st, .fehler) | .stuck w => (st, .stuck w) | .undef w => (st, .undef w)
-      let (st, rsc) := bindArgs st args []
+      let (st, rsc) := bindArgs ctx fuel env st fd args []
       match rsc with
       | .ok sc =>
         let fenv : Env := { scopes := [sc], globals := env.globals }
@@ -290,7 +254,7 @@ partial def evalExpr (ctx : Ctx) (fuel : Nat) (env : Env) (st : State) (e : Expr
       | .fehler => (st, .fehler) | .stuck w => (st, .stuck w) | .undef w => (st, .undef w)
 
 /-- an assignable (variable, list element, field, Buchstabe of a Text) as a location + path -/
-partial def evalLVal (ctx : Ctx) (fuel : Nat) (env : Env) (st : State) (e : Expr) : State × R Binding :=
+def evalLVal (ctx : Ctx) (fuel : Nat) (env : Env) (st : State) (e : Expr) : State × R Binding :=
   match fuel with
   | 0 => (st, .stuck "out-of-fuel")
   | fuel + 1 =>
@@ -325,7 +289,7 @@ partial def evalLVal (ctx : Ctx) (fuel : Nat) (env : Env) (st : State) (e : Expr
      | r => (st, r))
   | _ => (st, .stuck "not assignable")
 
-partial def execBlock (ctx : Ctx) (fuel : Nat) (env : Env) (st : State) (ss : List Stmt) : State × Outcome :=
+def execBlock (ctx : Ctx) (fuel : Nat) (env : Env) (st : State) (ss : List Stmt) : State × Outcome :=
   match fuel with
   | 0 => (st, .outOfFuel)
   | fuel + 1 =>
@@ -337,7 +301,7 @@ partial def execBlock (ctx : Ctx) (fuel : Nat) (env : Env) (st : State) (ss : Li
     | .normal => execBlock ctx fuel env st rest
     | o => (st, o)
 
-partial def execLoop (ctx : Ctx) (fuel : Nat) (env : Env) (st : State)
+def execLoop (ctx : Ctx) (fuel : Nat) (env : Env) (st : State)
     (cond : Env → State → State × R Bool) (body : List Stmt) (after : Env → State → State) (first : Bool) : State × Outcome :=
   match fuel with
   | 0 => (st, .outOfFuel)
@@ -355,8 +319,10 @@ partial def execLoop (ctx : Ctx) (fuel : Nat) (env : Env) (st : State)
     | .stuck w => (st, .stuck w)
     | .undef w => (st, .undef w)
 
-partial def execStmt (ctx : Ctx) (fuel : Nat) (env : Env) (st : State) (s : Stmt) : Env × State × Outcome :=
-  let lift {α} (r : R α) : Outcome := match r with | .ok _ => .normal | .fehler => .fehler | .stuck w => .stuck w | .undef w => .undef w
+def execStmt (ctx : Ctx) (fuel : Nat) (env : Env) (st : State) (s : Stmt) : Env × State × Outcome :=
+  match fuel with
+  | 0 => (env, st, .outOfFuel)
+  | fuel + 1 =>
   match s with
   | .decl t n e =>
     let (st, r) := evalExpr ctx fuel env st e
@@ -364,8 +330,8 @@ partial def execStmt (ctx : Ctx) (fuel : Nat) (env : Env) (st : State) (s : Stmt
      | .ok v =>
        (match coerceTo t v with
         | .ok v' => let (st, loc) := st.alloc v'; (env.bind n ⟨loc, [], t⟩, st, .normal)
-        | r => (env, st, lift r))
-     | r => (env, st, lift r))
+        | r => (env, st, liftR r))
+     | r => (env, st, liftR r))
   | .assign target e =>
     let (st, r) := evalExpr ctx fuel env st e
     (match r with
@@ -375,9 +341,9 @@ partial def execStmt (ctx : Ctx) (fuel : Nat) (env : Env) (st : State) (s : Stmt
         | .ok b =>
           (match coerceTo b.ty v with
            | .ok v' => (match st.write b v' with | some st' => (env, st', .normal) | none => (env, st, .stuck "write"))
-           | r => (env, st, lift r))
-        | r => (env, st, lift r))
-     | r => (env, st, lift r))
+           | r => (env, st, liftR r))
+        | r => (env, st, liftR r))
+     | r => (env, st, liftR r))
   | .compound op target e =>
     -- `Erhöhe a um e` = `Speichere a op e in a` (the target is read, then written)
     let (st, rb) := evalLVal ctx fuel env st target
@@ -395,18 +361,18 @@ partial def execStmt (ctx : Ctx) (fuel : Nat) (env : Env) (st : State) (s : Stmt
               | .ok nv =>
                 (match coerceTo b.ty nv with
                  | .ok nv' => (match st.write b nv' with | some st' => (env, st', .normal) | none => (env, st, .stuck "write"))
-                 | r => (env, st, lift r))
-              | r => (env, st, lift r))
-           | r => (env, st, lift r))
+                 | r => (env, st, liftR r))
+              | r => (env, st, liftR r))
+           | r => (env, st, liftR r))
         | none => (env, st, .stuck "read"))
-     | r => (env, st, lift r))
+     | r => (env, st, liftR r))
   | .ifElse c tb eb =>
     let (st, rc) := evalExpr ctx fuel env st c
     (match rc with
      | .ok (.bool true) => let (st, o) := execBlock ctx fuel env.push st tb; (env, st, o)
      | .ok (.bool false) => let (st, o) := execBlock ctx fuel env.push st eb; (env, st, o)
      | .ok _ => (env, st, .stuck "if")
-     | r => (env, st, lift r))
+     | r => (env, st, liftR r))
   | .while c body =>
     let cond := fun (env : Env) (st : State) =>
       let (st, r) := evalExpr ctx fuel env st c
@@ -425,6 +391,7 @@ partial def execStmt (ctx : Ctx) (fuel : Nat) (env : Env) (st : State) (s : Stmt
      | .ok cv =>
        (match cv.toInt? with
         | some n =>
+          if n < 0 then (env, st, .undef "negative repeat count") else
           -- a hidden counter that is decremented before every iteration
           let (st, loc) := st.alloc (.int n)
           let cond := fun (_ : Env) (st : State) =>
@@ -434,7 +401,7 @@ partial def execStmt (ctx : Ctx) (fuel : Nat) (env : Env) (st : State) (s : Stmt
           let (st, o) := execLoop ctx fuel env st cond body (fun _ st => st) false
           (env, st, o)
         | none => (env, st, .stuck "repeat"))
-     | r => (env, st, lift r))
+     | r => (env, st, liftR r))
   | .forRange n t frm to step body =>
     let (st, rf) := evalExpr ctx fuel env st frm
     (match rf with
@@ -475,9 +442,9 @@ partial def execStmt (ctx : Ctx) (fuel : Nat) (env : Env) (st : State) (s : Stmt
                | none => st
              let (st, o) := execLoop ctx fuel env1 st cond body after false
              (env, st, o)
-           | r => (env, st, lift r))
-        | r => (env, st, lift r))
-     | r => (env, st, lift r))
+           | r => (env, st, liftR r))
+        | r => (env, st, liftR r))
+     | r => (env, st, liftR r))
   | .forEach t n idxName e body =>
     let (st, re) := evalExpr ctx fuel env st e
     (match re with
@@ -489,44 +456,108 @@ partial def execStmt (ctx : Ctx) (fuel : Nat) (env : Env) (st : State) (s : Stmt
        (match elems with
         | none => (env, st, .stuck "foreach")
         | some vs =>
-          let rec go (fuel' : Nat) (st : State) (vs : List Val) (k : Nat) : State × Outcome :=
-            match fuel' with
-            | 0 => (st, .outOfFuel)
-            | fuel' + 1 =>
-            match vs with
-            | [] => (st, .normal)
-            | v :: rest =>
-              let (st, loc) := st.alloc v
-              let env1 := env.push.bind n ⟨loc, [], t⟩
-              let (st, env1) := match idxName with
-                | some iname => let (st, il) := st.alloc (.int k); (st, env1.bind iname ⟨il, [], .zahl⟩)
-                | none => (st, env1)
-              let (st, o) := execBlock ctx fuel env1.push st body
-              match o with
-              | .normal | .cont => go fuel' st rest (k + 1)
-              | .brk => (st, .normal)
-              | o => (st, o)
-          let (st, o) := go fuel st vs 1
+          let (st, o) := execForEach ctx fuel env st t n idxName body vs 1
           (env, st, o))
-     | r => (env, st, lift r))
+     | r => (env, st, liftR r))
   | .break => (env, st, .brk)
   | .continue => (env, st, .cont)
   | .ret none => (env, st, .ret none)
   | .ret (some e) =>
     let (st, r) := evalExpr ctx fuel env st e
-    (match r with | .ok v => (env, st, .ret (some v)) | r => (env, st, lift r))
+    (match r with | .ok v => (env, st, .ret (some v)) | r => (env, st, liftR r))
   | .expr e =>
     let (st, r) := evalExpr ctx fuel env st e
-    (env, st, lift r)
+    (env, st, liftR r)
   | .print e nl =>
     let (st, r) := evalExpr ctx fuel env st e
     (match r with
+     | .ok (.char c) =>
+       -- only Unicode scalar values have a defined UTF-8 form
+       if c < 0 || c > 0x10FFFF || (0xD800 ≤ c && c ≤ 0xDFFF) then (env, st, .undef "Buchstabe outside Unicode")
+       else (env, { st with out := st.out.push (if nl then utf8OfCp c ++ "\n" else utf8OfCp c) }, .normal)
      | .ok v =>
        (match showVal v with
         | some s => (env, { st with out := st.out.push (if nl then s ++ "\n" else s) }, .normal)
         | none => (env, st, .stuck "print"))
-     | r => (env, st, lift r))
+     | r => (env, st, liftR r))
   | .todo => (env, st, .fehler)
+
+
+/-- the elements of a list literal, left to right -/
+def evalList (ctx : Ctx) (fuel : Nat) (env : Env) (st : State) (t : Ty) (es : List Expr) (acc : List Val) : State × R Val :=
+  match fuel with
+  | 0 => (st, .stuck "out-of-fuel")
+  | fuel + 1 =>
+  match es with
+  | [] => (st, .ok (.list t acc.reverse))
+  | x :: xs =>
+    let (st, r) := evalExpr ctx fuel env st x
+    match r with
+    | .ok v => evalList ctx fuel env st t xs (v :: acc)
+    | r => (st, r)
+
+/-- the fields of a Kombination in declaration order: the given argument or the default -/
+def evalFields (ctx : Ctx) (fuel : Nat) (env : Env) (st : State) (name : String) (args : List (String × Expr))
+    (fs : List (String × Ty × Expr)) (acc : List (String × Val)) : State × R Val :=
+  match fuel with
+  | 0 => (st, .stuck "out-of-fuel")
+  | fuel + 1 =>
+  match fs with
+  | [] => (st, .ok (.struct name acc.reverse))
+  | (fname, fty, dflt) :: rest =>
+    let src := match args.find? (·.1 == fname) with | some (_, x) => x | none => dflt
+    let (st, r) := evalExpr ctx fuel env st src
+    match r with
+    | .ok v =>
+      (match coerceTo fty v with
+       | .ok v' => evalFields ctx fuel env st name args rest ((fname, v') :: acc)
+       | .fehler => (st, .fehler) | .stuck w => (st, .stuck w) | .undef w => (st, .undef w))
+    | r => (st, r)
+
+/-- arguments in the order of the call: a Referenz parameter is bound to the caller's location,
+a value parameter to a fresh copy -/
+def bindArgs (ctx : Ctx) (fuel : Nat) (env : Env) (st : State) (fd : Func) (as : List (String × Expr)) (sc : Scope) : State × R Scope :=
+  match fuel with
+  | 0 => (st, .stuck "out-of-fuel")
+  | fuel + 1 =>
+  match as with
+  | [] => (st, .ok sc)
+  | (pn, ae) :: rest =>
+    match fd.params.find? (·.name == pn) with
+    | none => (st, .stuck "param")
+    | some p =>
+      if p.isRef then
+        let (st, rb) := evalLVal ctx fuel env st ae
+        match rb with
+        | .ok b => bindArgs ctx fuel env st fd rest ((pn, b) :: sc)
+        | .fehler => (st, .fehler) | .stuck w => (st, .stuck w) | .undef w => (st, .undef w)
+      else
+        let (st, r) := evalExpr ctx fuel env st ae
+        match r with
+        | .ok v =>
+          let (st, loc) := st.alloc v
+          bindArgs ctx fuel env st fd rest ((pn, ⟨loc, [], p.ty⟩) :: sc)
+        | .fehler => (st, .fehler) | .stuck w => (st, .stuck w) | .undef w => (st, .undef w)
+
+/-- the body once per element of the (already copied) operand -/
+def execForEach (ctx : Ctx) (fuel : Nat) (env : Env) (st : State) (t : Ty) (n : String) (idxName : Option String)
+    (body : List Stmt) (vs : List Val) (k : Nat) : State × Outcome :=
+  match fuel with
+  | 0 => (st, .outOfFuel)
+  | fuel + 1 =>
+  match vs with
+  | [] => (st, .normal)
+  | v :: rest =>
+    let (st, loc) := st.alloc v
+    let env1 := env.push.bind n ⟨loc, [], t⟩
+    let (st, env1) := match idxName with
+      | some iname => let (st, il) := st.alloc (.int k); (st, env1.bind iname ⟨il, [], .zahl⟩)
+      | none => (st, env1)
+    let (st, o) := execBlock ctx fuel env1.push st body
+    match o with
+    | .normal | .cont => execForEach ctx fuel env st t n idxName body rest (k + 1)
+    | .brk => (st, .normal)
+    | o => (st, o)
 
 end
 
